@@ -100,6 +100,10 @@ def cases(E):
         for pk in ("top-level", "has table", "no table"):
             cs.append(Case(H + "get_table_contract", f"own table={own}, enclosing chain {pk}", shape_get_table(own, pk), target=["a816.symbols.Scope.get_table"]))
     cs.append(Case(H + "text_node_contract", "overlap table, every text of length 3", shape_text_node, target=FUNCTIONS[6:9]))
+    # the string a .text directive hands to the table encoder is the quoted text minus its two delimiters, whatever it ends with (C07's contract)
+    from vf.props import C07 as c07
+    cs.append(Case(c07.H + "quoted_string_directive_contract", "a QUOTED_STRING token of any text (quotes and backslashes inside included)", c07.shape_quoted,
+                   target=["a816.parse.parser_states.parse_directive_with_quoted_string"]))
     for cls in ("Scope", "InternalScope", "NamedScope"):
         for outer_has in (True, False):
             cs.append(Case(H + "table_node_contract", f".table inside a {cls}, enclosing scope {'has' if outer_has else 'has no'} table", shape_table_node(cls, outer_has),
